@@ -486,3 +486,21 @@ def r8(ctx, R):
         found = ast.unparse(g[0]) if g else None
         ok = ok and ast.unparse(g[0].left) == 'tend + sum(all_dt[:comm_active.size - 1])'
     R.check(ok, 'controller_MPI.run :: split test `last rank start >= THRESHOLD` uses the threshold of the activity predicate', w, f'tend + sum(all_dt[:comm_active.size - 1]) >= {thr[0] if thr else "?"}', found)
+
+
+@rule('C08', 'C08.R9', 'node-parallel predictor: rank r fills node r+1 exactly like the serial predictor fills node m (same initial guesses, same node time), f(u0) on every rank', floor=2)
+def r9(ctx, R):
+    repo = ctx.repo
+    ser = Normalizer(repo.func('pySDC/core/sweeper.py', 'Sweeper.predict'))
+    rel = 'pySDC/implementations/sweeper_classes/generic_implicit_MPI.py'
+    par = Normalizer(repo.func(rel, 'SweeperMPI.predict'))
+    w = f'{rel}:SweeperMPI.predict'
+    R.fn(w)
+    def proj(d):
+        return d.replace(' for i1=1..M', '').replace('nodes[i1 - 1]', 'nodes[self.rank]').replace('[i1]', '[self.rank + 1]')
+    s = sorted(proj(c.describe()) for c in ser.contribs if c.target not in ser.env.alias and "== 'random'" not in c.describe())
+    p = sorted(c.describe() for c in par.contribs if c.target not in par.env.alias)
+    R.check(s == p, 'SweeperMPI.predict :: the serial predictor restricted to node rank+1 (initial guesses spread / copy / zero)', w, s, p)
+    fn = repo.func(rel, 'SweeperMPI.predict')
+    raises = [ast.unparse(x)[:60] for x in ast.walk(fn) if isinstance(x, ast.Raise)]
+    R.check(any('ParameterError' in r for r in raises), "SweeperMPI.predict :: an initial guess the parallel predictor does not implement ('random') raises instead of leaving the node empty", w, 'else: raise ParameterError', raises)
